@@ -33,14 +33,15 @@ TEXT["C14"] = ("Theorems: >, <=, >= are defined from < as the property states; e
                "element < on the element-wise path. Transitivity of vector < on the element-wise path is FALSE for the code: the full "
                "statement is kept with a kernel-checked counter-witness (known finding; the repair is rejected by an existing test). "
                "Correspondence: all operators, operand kinds, triples for transitivity over a two-value domain.")
-TEXT["C01"] = ("Refinement theorems, unbounded in history length: for every well-formed parameter list (offset-table locator and stride "
-               "locator separately), every sequence of emplace_back / pop_back / erase(position) / erase(range) / clear / reserve that respects "
-               "the preconditions maps the canonical layout of the element sequence to the canonical layout of the sequence an ordinary list "
-               "holds after the same operations, so size(), empty(), capacity() and every field read through the locator agree; erase returns "
-               "the follower. PARTIAL: proved for value types on the memmove relocation path, and for all value types on histories whose "
-               "erases end at the end of the vector; the element-wise relocation of erase for non-trivial types is executed in the "
-               "correspondence run only (and is a known finding for overlapping moves). Correspondence: long random histories on every list "
-               "category x value-type category, every field of every element after every operation.")
+TEXT["C01"] = ("Refinement theorems, unbounded in history length: for every well-formed parameter list, every sequence of emplace_back / "
+               "pop_back / erase(position) / erase(range) / clear / reserve that respects the preconditions maps the canonical layout of the "
+               "element sequence to the canonical layout of the sequence an ordinary list holds after the same operations, so size(), empty(), "
+               "capacity() and every field read through the locator agree; erase returns the follower. Lists without VaryingSize (stride "
+               "locator): all value types, both relocation paths. Lists with VaryingSize (offset-table locator): memmove path in full; "
+               "element-wise path (non-trivial types) under the condition that no erase relocates an element over its own storage. "
+               "PARTIAL by exactly that condition: where it fails the code is wrong (known finding, kernel-checked counter-witness). "
+               "Correspondence: long random histories on every list category x value-type category, every field of every element after "
+               "every operation.")
 TEXT["C02"] = ("Theorems for every well-formed parameter list, all alignments, fixed sizes and every distribution of the varying sizes: "
                "calculate_element_size over-approximates the real extent of every element (induction over the size fold with the "
                "invariant 'real address = m*bracket + offset', worst-case padding where the bracket is too small; exact without "
@@ -49,12 +50,13 @@ TEXT["C02"] = ("Theorems for every well-formed parameter list, all alignments, f
                "Table-slot reads of erase/clear/data() are covered by the correspondence run (ASan, guard zones, junk-filled fresh "
                "memory), as is the tie of the size formulas to the code (element size/stride/memory_consumption compared on every "
                "construction and reserve; blocks filled to exactly N and B in many residue patterns).")
-TEXT["C06"] = ("Theorems over the live-record model of the block: after every history (memmove path; all value types when nothing is "
-               "relocated) the live records are exactly the logically held elements, pairwise disjoint, and no operation ever constructed "
-               "over a live record or relocated from a dead one (poison flag never raised); moved-from vectors hold nothing. The full "
-               "statement is FALSE on the element-wise erase path of the offset-table locator: kernel-checked counter-witness (known "
-               "finding). Correspondence: instrumented value type keyed by address (construct/destroy/assign/read callbacks, "
-               "address-dependent canary) over histories, assignments between unequal allocators and elements.")
+TEXT["C06"] = ("Theorems over the live-record model of the block: after every history the live records are exactly the logically held "
+               "elements, pairwise disjoint, and no operation ever constructed over a live record or relocated from a dead one (poison flag "
+               "never raised) - for all value types on the stride locator; on the offset-table locator for the memmove path and, for "
+               "non-trivial types, for every history in which no erase relocates an element over its own storage; moved-from vectors hold "
+               "nothing. Without that condition the statement is FALSE for the code: kernel-checked counter-witness (known finding). "
+               "Correspondence: instrumented value type keyed by address (construct/destroy/assign/read callbacks, address-dependent "
+               "canary) over histories, assignments between unequal allocators and elements.")
 TEXT["C09"] = ("Theorems on the multi-vector model: copy construction/assignment give the target the source's size, fixed sizes, capacity "
                "and field values and leave the source and all other vectors unchanged; move construction/assignment (stealing and "
                "element-wise branch) give the target the source's former contents, the source is empty; swap exchanges contents; "
